@@ -56,8 +56,16 @@ def setup():
   @gin.configurable(module='c04')
   def consumer(p=None, q=None):
     return p
-  global CONSUMER, GFN
-  CONSUMER, GFN = consumer, g
+
+  @gin.configurable(module='c04')
+  def strict(p=gin.REQUIRED, q=None):
+    return p
+
+  @gin.configurable(module='c04')
+  def kwonly_consumer(*, p=None, q=None):
+    return p
+  global CONSUMER, GFN, STRICT, KWONLY
+  CONSUMER, GFN, STRICT, KWONLY = consumer, g, strict, kwonly_consumer
 
 
 SHAPES = {
@@ -326,7 +334,40 @@ def run_dictkey(name, ai, res):
   res.outcome('dictkey')
 
 
+def run_override_variants(cname, res):
+  """Caller overrides on consumers with other signature shapes (signature-level REQUIRED, keyword-only)."""
+  fn = {'strict': STRICT, 'kwonly': KWONLY}[cname]
+  sel = 'c04.' + fn.__name__
+  for text, n_eval in (('@c04.g()', 1), ("{'k': [(@s/c04.g(), 1)], 'j': @c04.g()}", 2), ('[%mg, %mg]', 2)):
+    for how in ('none', 'kw', 'kw_none', 'pos'):
+      if how == 'pos' and cname == 'kwonly':
+        continue
+      desc = ['override', cname, text, how]
+      harness.hard_reset()
+      del CALLS[:]
+      gin.parse_config("mg = @c04.g()\nc04.g.tag = 'T'\n%s.p = %s" % (sel, text))
+      res.case(tuple(desc), True)
+      sentinel = ['caller']
+      try:
+        got = {'none': lambda: fn(), 'kw': lambda: fn(p=sentinel), 'kw_none': lambda: fn(p=None),
+               'pos': lambda: fn(sentinel)}[how]()
+      except Exception as e:  # pylint: disable=broad-except
+        res.violation('call_raised', '%r: %r' % (desc, e), desc)
+        continue
+      want = n_eval if how == 'none' else 0
+      if len(CALLS) != want:
+        res.violation('evaluated_despite_caller_%s' % ('positional' if how == 'pos' else 'keyword') if how != 'none'
+                      else 'eval_count', '%r: g evaluated %d time(s), expected %d' % (desc, len(CALLS), want), desc)
+      elif how == 'kw' and got is not sentinel or how == 'kw_none' and got is not None:
+        res.violation('caller_value_lost', '%r: received %r' % (desc, got), desc)
+      elif how != 'none':
+        res.w('not_called_when_keyword' if how.startswith('kw') else 'not_called_when_positional')
+      res.outcome('override:' + how)
+
+
 def gen(tier):
+  yield 'OVERRIDE', 'strict', None
+  yield 'OVERRIDE', 'kwonly', None
   for name in DICTKEY_CASES:
     for ai in range(len(AMBIENT)):
       yield 'DICTKEY', name, ai
@@ -355,6 +396,9 @@ def run_shard(i, tier):
     if sname == 'DICTKEY':
       run_dictkey(rscope, seq, res)
       continue
+    if sname == 'OVERRIDE':
+      run_override_variants(rscope, res)
+      continue
     run_sequence(sname, rscope, seq, res)
     if n % 4001 == i:
       res.sample({'shape': render(SHAPES[sname], rscope), 'calls': [list(c) for c in seq]})
@@ -366,6 +410,10 @@ def run_shard(i, tier):
 
 def replay(desc):
   res = core.Result()
+  if desc[0] == 'override':
+    run_override_variants(desc[1], res)
+    harness.hard_reset()
+    return res
   if desc[0] == 'dictkey':
     run_dictkey(desc[1], desc[2], res)
     harness.hard_reset()
